@@ -38,7 +38,7 @@ CHECKS = {
     "C20": (
         "model_checking",
         "exhaustive enumeration of a grammar universe x {u8,u16,u32} plus boundary families around 255 / 65535 built in watched child processes; sizes, indices, query dumps and parses compared across widths",
-        "Every grammar of the quick universe is built in the three widths and the complete query dump (grammar, table, state graph) and all short parses must agree. Six boundary families (c rules, c tokens, c productions, one production of c symbols, exactly c LR states, a lexer of c rules) for c = 250..260 (thorough also 65530..65540) are built in every width inside a watched child: either the build succeeds, reports exactly the model's sizes, hands out only in-range indices and agrees with the u32 build, or it panics with one of the documented refusals; acceptance must be monotone in the width. Anything else (other panic, hang, wrapped size) is a violation.",
+        "Every grammar of the quick universe is built in the three widths and the complete query dump (grammar, table, state graph) and all short parses must agree. Seven boundary families (c rules, c tokens, c productions, one production of c symbols, an Eco production whose compiled length - symbols plus implicit-token references - is c while a longer source production stays short, exactly c LR states, a lexer of c rules) for c = 250..260 (thorough also 65530..65540) are built in every width inside a watched child: either the build succeeds, reports exactly the model's sizes, hands out only in-range indices and agrees with the u32 build, or it panics with one of the documented refusals; acceptance must be monotone in the width. Anything else (other panic, hang, wrapped size) is a violation.",
         "State numbers may differ between widths only as far as known finding C20-b allows (identical after canonical renumbering). u32 boundaries are out of reach.",
         "DESIGN.md 3/C20",
     ),
@@ -59,7 +59,7 @@ CHECKS = {
     "C09": (
         "model_checking",
         "bounded-exhaustive enumeration of lex specifications x id maps x input strings against a direct maximal-munch reference lexer with a plain state stack",
-        "Every ordered list of up to 3 rules over a 9-regex menu (overlapping, alternation, repetition, multi-byte, dot) with every named/skip assignment; every list of up to 2 (thorough 3) rules over {a, b, ab} x every start-state prefix (none, inclusive, exclusive, both, INITIAL) x every target operation (none, replace, push, pop on inclusive/exclusive/INITIAL) x named/skip; every three-rule stack-operation specification (push / replace / pop incl. pushing the bottom state onto itself) ; every subset of {case_insensitive, !dot_matches_new_line, !multi_line} on a flag-sensitive menu; each against every input string up to length 5-6 over an alphabet with a two-byte character and a newline. The whole lexeme / error sequence is compared with a reference that re-implements rule activation, longest match, earliest rule on ties, push / pop / replace on a plain (not run-length) stack and the single error at the first unmatched position. set_rule_ids is run with every map over subsets of the rule names plus a foreign name and its two result sets and the subsequent lexing are compared.",
+        "Every ordered list of up to 3 rules over a 9-regex menu (overlapping, alternation, repetition, multi-byte, dot) with every named/skip assignment; every list of up to 2 (thorough 3) rules over {a, b, ab} x every start-state prefix (none, inclusive, exclusive, both, INITIAL) x every target operation (none, replace, push, pop on inclusive/exclusive/INITIAL) x named/skip; every three-rule stack-operation specification (push / replace / pop incl. pushing the bottom state onto itself) ; every subset of {case_insensitive, !dot_matches_new_line, !multi_line} on a flag-sensitive menu; a case-folding family (rules k, ks, [a-z], s under both settings of case_insensitive against inputs over {k, s, KELVIN SIGN, LONG S, a}: a case-insensitive match can be longer in the input than in the pattern); each against every input string up to length 5-6 over an alphabet with a two-byte character and a newline. The whole lexeme / error sequence is compared with a reference that re-implements rule activation, longest match, earliest rule on ties, push / pop / replace on a plain (not run-length) stack and the single error at the first unmatched position. set_rule_ids is run with every map over subsets of the rule names plus a foreign name and its two result sets and the subsequent lexing are compared.",
         "The meaning of each regular expression is the regex crate's on both sides. Result order of set_rule_ids as pinned by the repository's own test.",
         "DESIGN.md 3/C09",
     ),
@@ -73,7 +73,7 @@ CHECKS = {
     "C19": (
         "model_checking",
         "exhaustive enumeration of all strings up to a length bound x all chunkings x all offsets x all spans against a naive line/column reference",
-        "Every string of up to 7 (thorough 9) characters over {a, two-byte e-acute, LF, CR}, every way of feeding it to the cache in up to four pieces (empty pieces included), every character-boundary offset and every span on character boundaries: line number, line start, line/column and line extent are compared with a three-line naive reference and nothing may panic; offsets beyond the text must be refused. For the shorter strings the same is done through LRNonStreamingLexer::{line_col, span_lines_str} and through LexParseError::pp for a real lexing error and a real parsing error placed at every position.",
+        "Every string of up to 7 (thorough 9) characters over {a, two-byte e-acute, LF, CR}, every way of feeding it to the cache in up to four pieces (empty pieces included), every character-boundary offset and every span on character boundaries: line number, line start, line/column and line extent are compared with a three-line naive reference and nothing may panic; offsets beyond the text must be refused. For the shorter strings the same is done through LRNonStreamingLexer::{line_col, span_lines_str} (line_col of every span must also equal the cache's own answer for its two ends) and through LexParseError::pp for a real lexing error and a real parsing error placed at every position.",
         "A non-empty span ending exactly on a line start may or may not include that next line (the repository's own test pins 'includes'); the LF of a CR LF pair may carry the CR's column or the next.",
         "DESIGN.md 3/C19",
     ),
@@ -87,7 +87,7 @@ CHECKS = {
     "C05": (
         "model_checking",
         "bounded-exhaustive enumeration of grammars x cost vectors x erroneous inputs; every reported repair sequence replayed through an independent LR driver over the public table; differential re-parse of the repaired input",
-        "For every grammar of the universes and families (tables with conflicts included), every cost vector and every input up to the bound, the real CPCT+ parser runs in a watched child process under a deterministic step budget. An independent LR driver over the public action/goto interface reproduces every error configuration (position and state are cross-checked with the reported error), applies every reported sequence of every error and requires three further shifts or acceptance; it then applies the first sequence, predicts the position of the next error, the final outcome, the exact leaves of the returned tree (inserted tokens zero-length, faulty, at the next real lexeme) and, on conflict-free tables, re-parses the repaired input from scratch with recovery off and requires the identical tree.",
+        "For every grammar of the universes and families (tables with conflicts included; quick tier: plus the 29,242 acyclic conflict tables of U(2,2,2,3,6) with inputs of up to 3 lexemes and unit costs), every cost vector and every input up to the bound, the real CPCT+ parser runs in a watched child process under a deterministic step budget. An independent LR driver over the public action/goto interface reproduces every error configuration (position and state are cross-checked with the reported error), applies every reported sequence of every error and requires three further shifts or acceptance; it then applies the first sequence, predicts the position of the next error, the final outcome, the exact leaves of the returned tree (inserted tokens zero-length, faulty, at the next real lexeme) and, on conflict-free tables, re-parses the repaired input from scratch with recovery off and requires the identical tree.",
         "The from-scratch re-parse is only required on conflict-free tables (elsewhere reductions made under the erroneous lookahead are irrevocable and need not be those of a fresh parse). Parses that do not return are C07's subject.",
         "DESIGN.md 3/C05",
     ),
@@ -143,7 +143,7 @@ CHECKS = {
     "C17": (
         "model_checking",
         "bounded-exhaustive enumeration of grammars x cost vectors against fixed-point reference models; watched child processes for termination",
-        "Every grammar of the listed universes (all shapes up to 2-3 rules / 2-3 tokens / 6-7 symbols, up to renaming; unproductive, unreachable and self-deriving rules included; quick tier: plus the finite-language three-rule grammars of U(3,2,2,2,6) for the two cost queries) and, for the static analyses, of the families F-chains, F-empty and F-wide (token sets longer than one machine word) is pushed through the real FIRST/FOLLOW/nullable/has_path code and, with every cost vector over {1,2}/{1,2,3}, through the real sentence generator; every answer for every rule is compared with textbook least fixed points that are themselves cross-checked against brute-force sentential-form / language enumeration on each run. Termination is decided by a watched child process per query.",
+        "Every grammar of the listed universes (all shapes up to 2-3 rules / 2-3 tokens / 6-7 symbols, up to renaming; unproductive, unreachable and self-deriving rules included; quick tier: plus the finite-language three-rule grammars of U(3,2,2,2,6) for the two cost queries) and, for the static analyses, of the families F-chains, F-empty and F-wide (token sets longer than one machine word) is pushed through the real FIRST/FOLLOW/nullable/has_path code and, with every cost vector over {1,2}/{1,2,3}, through the real sentence generator (on the grammars of at most 4-5 symbols also with the cost vectors over {100, 200} and all-255: token costs are bytes, their sums are not); every answer for every rule is compared with textbook least fixed points that are themselves cross-checked against brute-force sentential-form / language enumeration on each run. Termination is decided by a watched child process per query.",
         "Claims nothing beyond the universes; trusts the reference fixed points (validated per run against brute force) and the watchdog limits (a timeout is a verdict only after confirmation in isolation).",
         "DESIGN.md 3/C17",
     ),
